@@ -73,6 +73,12 @@ DenseLaws(e) ==
                 /\ Map("transpose_left", e, <<>>, idx) = R(idx)
           /\ Strides("transpose_right", e, <<>>) = StridesLeft(e)
           /\ Strides("transpose_left", e, <<>>) = StridesRight(e))
+    \* equality: equal extents give the same mapping; conversely (no zero extent) the strides and the size determine the extents
+    /\ \A e2 \in [1..Len(e) -> 0..MaxExt] :
+          /\ (ExtentsEqual(e, e2) <=> e = e2)
+          /\ (ExtentsEqual(e, e2) => StridesRight(e) = StridesRight(e2) /\ StridesLeft(e) = StridesLeft(e2) /\ Size(e) = Size(e2))
+          /\ (Size(e) > 0 /\ Size(e2) > 0 /\ StridesRight(e) = StridesRight(e2) /\ Size(e) = Size(e2) => ExtentsEqual(e, e2))
+    /\ \A n \in 0..MaxRank : n # Len(e) => ~ExtentsEqual(e, [r \in 1..n |-> 1])
     \* submdspan_extents with full_extent / single-index slices: the kept sub-space has as many points as there are
     \* multi-indices agreeing with the fixed positions
     /\ \A sl \in [1..Len(e) -> -1..(MaxExt - 1)] :
